@@ -79,6 +79,30 @@ type Cross struct {
 	New   int    `clover:"v2" json:"v3"`
 }
 
+// Untagged carries no tag on any of its own fields, but holds tagged structs in a named
+// field, behind a pointer, in a slice and in a map (renaming must still reach them in both
+// directions).
+type Untagged struct {
+	Title string
+	In    Inner
+	P     *Inner
+	L     []Inner
+	M     map[string]Inner
+}
+
+// hiddenBase is an unexported type: embedding it contributes nothing to the document (its
+// field is unexported, so the conversion has to skip it - reflection cannot read it).
+type hiddenBase struct {
+	Hid  int
+	Note string
+}
+
+type EmbHidden struct {
+	hiddenBase
+	Name string `clover:"name"`
+	N    int
+}
+
 // Two distinct struct types that print the same name (function-local types).
 func localRecordA(name string, age int) interface{} {
 	type record struct {
@@ -209,6 +233,24 @@ func (f *Family) Build(name string) interface{} {
 			}
 		}
 		return t
+	case "Untagged":
+		u := Untagged{Title: f.Name, In: f.inner(0)}
+		if f.PInSet {
+			in := f.inner(1)
+			u.P = &in
+		}
+		for i := 0; i < f.NList; i++ {
+			u.L = append(u.L, f.inner(i))
+		}
+		if !f.MNil {
+			u.M = map[string]Inner{}
+			for i, k := range f.MKeys {
+				u.M[k] = f.inner(i)
+			}
+		}
+		return u
+	case "EmbHidden":
+		return EmbHidden{hiddenBase: hiddenBase{Hid: f.JS + 1, Note: "hidden"}, Name: f.Name, N: f.MVal}
 	case "EmbPtr":
 		e := EmbPtr{Z: f.I64}
 		if f.EmbSet {
@@ -310,6 +352,28 @@ func (f *Family) Expect(name string) map[string]interface{} {
 		m["pm"] = pm
 		omit(m, "num", f.JS == 0, int64(f.JS))
 		return m
+	case "Untagged":
+		m := map[string]interface{}{"Title": f.Name, "In": f.innerExp(0)}
+		if f.PInSet {
+			m["P"] = f.innerExp(1)
+		} else {
+			m["P"] = nil
+		}
+		l := make([]interface{}, f.NList)
+		for i := range l {
+			l[i] = f.innerExp(i)
+		}
+		m["L"] = l
+		mm := map[string]interface{}{}
+		if !f.MNil {
+			for i, k := range f.MKeys {
+				mm[k] = f.innerExp(i)
+			}
+		}
+		m["M"] = mm
+		return m
+	case "EmbHidden":
+		return map[string]interface{}{"name": f.Name, "N": int64(f.MVal)}
 	case "EmbPtr":
 		m := map[string]interface{}{"z": f.I64}
 		if f.EmbSet {
@@ -416,6 +480,25 @@ func StructEqual(a, b interface{}) bool {
 			}
 		}
 		return true
+	case Untagged:
+		y, ok := b.(Untagged)
+		if !ok || x.Title != y.Title || !innerEq(x.In, y.In) || (x.P == nil) != (y.P == nil) || (x.P != nil && !innerEq(*x.P, *y.P)) || len(x.L) != len(y.L) || len(x.M) != len(y.M) {
+			return false
+		}
+		for i := range x.L {
+			if !innerEq(x.L[i], y.L[i]) {
+				return false
+			}
+		}
+		for k, v := range x.M {
+			if w, ok := y.M[k]; !ok || !innerEq(v, w) {
+				return false
+			}
+		}
+		return true
+	case EmbHidden:
+		y, ok := b.(EmbHidden)
+		return ok && x.Name == y.Name && x.N == y.N // the unexported embedded part does not travel
 	case EmbPtr:
 		y, ok := b.(EmbPtr)
 		if !ok || x.Z != y.Z || (x.Emb == nil) != (y.Emb == nil) || (x.Emb != nil && *x.Emb != *y.Emb) || len(x.L) != len(y.L) || len(x.MI) != len(y.MI) {
